@@ -46,6 +46,12 @@ func URLContainsDoubleDotSegment(url string) bool {
 	return urlDoubleDotSegmentPattern.MatchString(url)
 }
 
+// URLDoubleDotSegmentCount returns the number of non-overlapping occurrences of the
+// double dot-segment ".." in url, in its percent-encoded or unencoded form.
+func URLDoubleDotSegmentCount(url string) int {
+	return len(urlDoubleDotSegmentPattern.FindAllStringIndex(url, -1))
+}
+
 var urlDoubleDotSegmentPattern = regexp.MustCompile(`(?i)(?:\.|%2e)(?:\.|%2e)`)
 
 // QueryEscapeURL produces an output that can be embedded in a URL query.
